@@ -294,6 +294,11 @@ func (g *gctx) sig(depth, maxP, maxR int, inner bool) Sig {
 	np := g.intn("nparams", 0, maxP)
 	nr := g.intn("nresults", 0, maxR)
 	for i := 0; i < np; i++ {
+		if i > 0 && g.intn("sametype", 0, 3) == 0 {
+			// the same type twice in one signature (Merge(a, b T)) is the common case in real code
+			s.Params = append(s.Params, Var{T: s.Params[g.intn("which", 0, i-1)].T})
+			continue
+		}
 		s.Params = append(s.Params, Var{T: g.ty(depth)})
 	}
 	if np > 0 && g.intn("variadic", 0, 3) == 0 {
@@ -303,6 +308,8 @@ func (g *gctx) sig(depth, maxP, maxR int, inner bool) Sig {
 		var rt Ty
 		if g.intn("errres", 0, 3) == 0 {
 			rt = B("error")
+		} else if np > 0 && g.intn("sameasparam", 0, 3) == 0 {
+			rt = s.Params[g.intn("which", 0, np-1)].T
 		} else {
 			rt = g.ty(depth)
 		}
